@@ -85,13 +85,18 @@ def events(path):
             else:
                 out.append("each %s {" % fmt_label(e[2]))
         elif e[0] == "next":
-            out.append("each %s {" % fmt_label(e[1]))
+            src = e[1]
+            if isinstance(src, tuple) and len(src) == 2 and src[0] == "iter":
+                src = src[1]    # `for t in xs.iter()`: plain forward iteration, the same sequence as `xs.iter().for_each(..)` / `for t in &xs`
+            out.append("each %s {" % fmt_label(src))
         elif e[0] in ("iterate_end", "next_end"):
             out.append("}" if not (e[0] == "iterate_end" and len(e) > 4 and e[4] == "break") else "}!stops-here")
         elif is_callback(e):
             out.append("visit " + sym_of(e[2][1]))
         elif e[0] == "recurse":
             a0 = e[2][0]
+            if isinstance(a0, tuple) and len(a0) == 2 and a0[0] == "elem" and isinstance(a0[1], tuple) and len(a0[1]) == 2 and a0[1][0] == "iter":
+                a0 = ("elem", a0[1][1])    # element of `xs.iter()` in a `for` loop = element of xs
             out.append("recurse %s %s" % (e[1], fmt_label(a0)))
         elif e[0] == "call" and e[1].endswith("::branch"):
             continue
@@ -232,7 +237,7 @@ def check_type_walker(facts, rep, prop, walker, spec_key, mut):
         conds, other = type_conds_of(p)
         exp = expand(["TYPEMUT t" if mut else "TYPE t"], conds, rec, {"type_fmt": "%s"})
         recs = [e for e in p.effects if e[0] == "recurse"]
-        pos_ok = all(e[1] == rec and e[2][tpos] == ("elem", "t.generic_types") for e in recs) and len(recs) == 1
+        pos_ok = all(e[1] == rec and e[2][tpos] in (("elem", "t.generic_types"), ("elem", ("iter", "t.generic_types"))) for e in recs) and len(recs) == 1
         ok = ev == exp and p.exit == "return" and not other and pos_ok
         rep.check(ok, rule, "%s|A5|%s|induction|%s" % (prop, walker, cond_key(conds)), cfg.where(rf),
                   "inductive step: %s(t) must visit t once and recurse on every element of t.generic_types (forward); expected %s, extracted %s" % (rec, exp, ev),
